@@ -44,7 +44,10 @@ CONSTANTS NF,            \* number of comptime functions f1..fNF
 
 Names == {"int", "float", "len"}
 Fns == 1..NF
-AllFaults == {"none", "py_before", "guppy_before", "py_after", "guppy_after", "bad_return"}
+\* py: an ordinary Python exception; guppy: a Guppy error raised inside the body; intr: a
+\* BaseException that is not an Exception (KeyboardInterrupt: Ctrl-C while tracing)
+AllFaults == {"none", "py_before", "guppy_before", "intr_before", "py_after", "guppy_after", "intr_after",
+              "bad_return"}
 ASSUME Faults \subseteq AllFaults /\ "A" \in Mods
 
 \* what a body does between its two observation points
@@ -152,9 +155,11 @@ FaultStep ==
     /\ \E pc \in {1, 4} :
         /\ InFrame(pc)
         /\ LET ft == script[Top.f].fault
-               mine == IF pc = 1 THEN {"py_before", "guppy_before"} ELSE {"py_after", "guppy_after"} IN
+               mine == IF pc = 1 THEN {"py_before", "guppy_before", "intr_before"}
+                                 ELSE {"py_after", "guppy_after", "intr_after"} IN
            IF ft \in mine
-           THEN exc' = (IF ft \in {"py_before", "py_after"} THEN "py" ELSE "guppy") /\ stack' = stack
+           THEN exc' = (IF ft \in {"py_before", "py_after"} THEN "py"
+                        ELSE IF ft \in {"intr_before", "intr_after"} THEN "intr" ELSE "guppy") /\ stack' = stack
            ELSE exc' = exc /\ SetPc(pc + 1)
     /\ UNCHANGED <<phase, place, bind, script, glob, cur, hist>>
 
